@@ -61,6 +61,11 @@ def scenarios(tier, seed):
             out.append({"sim": sim, "n": n, "edges": edges, "weights": w, "tau": 1.0, "gamma": 1.0, "p": 0.5, "tmin": 0,
                         "tmax": 400 if tier == "quick" else 4000, "init_kw": {"initial_infecteds": [1, 2, 3]}, "weighted": weighted,
                         "long": True, "seed": 99 + (1 if weighted else 0)})
+    # table-driven fast_nonMarkov_SIS whose durations and delays are small multiples of one step: simultaneous events
+    from harness import event_scn
+    for k, es in enumerate(event_scn.sis_lattice_scenarios(seed, 400 if tier == "quick" else 4000)):
+        out.append({"sim": "fast_nonMarkov_SIS(table rules, simultaneous events)", "sis_ties": es, "n": es["n"], "edges": [], "weights": None,
+                    "tau": 1.0, "gamma": 1.0, "p": 0.5, "tmin": es["tmin"], "tmax": es["tmax"], "init_kw": {}, "weighted": False, "seed": k})
     # generic simulators: any user model, the legal moves are the model's own edges
     from harness import contagion
     mrng = pyrandom.Random(seed + 404)
@@ -200,10 +205,23 @@ def _record(i):
         return _record_complex(i)
     sc = _G["scn"][i]
     EoN = _G["EoN"]
-    G = simruns.make_graph(sc["n"], sc["edges"], sc["weights"])
     sim = sc["sim"]
-    kind = simruns.kind_of(sim)
-    disc = simruns.is_discrete(sim)
+    if "sis_ties" in sc:
+        from harness import event_sir, event_sis
+        es = sc["sis_ties"]
+        G = event_sir.build(es)
+        kind, disc = "SIS", False
+    else:
+        G = simruns.make_graph(sc["n"], sc["edges"], sc["weights"])
+        kind = simruns.kind_of(sim)
+        disc = simruns.is_discrete(sim)
+
+    def do_call(full):
+        if "sis_ties" not in sc:
+            return simruns.call_sim(EoN, sim, G, sc, full)
+        tt, rt, jt, js = event_sis.make_fxns(es)
+        return EoN.fast_nonMarkov_SIS(G, trans_time_fxn=tt, rec_time_fxn=rt, initial_infecteds=[u + 1 for u in range(es["n"]) if es["init"][u] == "I"],
+                                      tmin=float(es["tmin"]), tmax=float(es["tmax"]), return_full_data=full)
     tmax = sc["tmax"]
     eff_tmax = tmax if tmax is not None else (float("inf") if kind == "SIR" or disc else 100.0)
     if sim in ("simple_contagion_SIR", "complex_contagion_SIR") and tmax is None:
@@ -212,7 +230,7 @@ def _record(i):
     for full in (False, True):
         simruns.seed_all(sc["seed"])
         try:
-            r = simruns.call_sim(EoN, sim, G, sc, full)
+            r = do_call(full)
         except Exception as ex:
             out.append({"error": repr(ex), "etype": type(ex).__name__, "full": full})
             continue
@@ -277,7 +295,9 @@ def _record(i):
             pass
         out.append({"sim": sim, "kind": kind, "disc": 1 if disc else 0, "n": sc["n"], "tmin": tmn, "tmax": tmx,
                     "whole": whole, "must_die_out": must, "rows": rows, "equal_lengths": 1 if len(set(lens)) == 1 else 0,
-                    "integers": 1 if ints else 0, "moves": SIR_MOVES if kind == "SIR" else SIS_MOVES,
+                    # table rules may list attempts later than the source's own recovery: an infection then needs no
+                    # currently infectious node
+                    "integers": 1 if ints else 0, "moves": ([[1, 2, 0], [2, 1, 0]] if "sis_ties" in sc else (SIR_MOVES if kind == "SIR" else SIS_MOVES)),
                     "full": full, "scn": i})
     return out
 
